@@ -544,6 +544,9 @@ func (self *FieldMask) ForEachChild(scanner func(strKey string, intKey int, chil
 		return
 	case FtStruct:
 		fm := self.fdMask
+		if fm == nil {
+			return
+		}
 		for k, v := range fm.tail {
 			if !scanner("", int(k), v) {
 				return
